@@ -1,12 +1,231 @@
-//! C18 — not built yet.
-use crate::runner::{Outcome, Summary};
-use crate::Ctx;
-use serde_json::Value;
+//! C18 — calibration expansion always terminates without crashing; error iff re-entry.
+//!
+//! replay: TLC cases from spec/mc/MC_CalExpand.tla (families struct with cycles through every name, param
+//!         with growing parameters that a literal calibration stops): the program is expanded on the real
+//!         library; the result category (done | recursive) must be the model's, which TLC has checked to
+//!         be "recursive iff a cycle is reachable in the expands-to graph" (ErrIffReentry) and to be
+//!         reached on every fair behaviour (Terminates).  A crash or timeout of the worker is a violation
+//!         (reported by the replay pool).
+//!         Programs with a *growing parameter on a call cycle* (the shape of the known finding
+//!         calibration-parameter-growth) are expanded in a helper process, one at a time, on a 2 MiB
+//!         thread stack so that unbounded recursion is observed quickly; the death of the helper is the
+//!         tagged violation (the next such program gets a fresh helper).  Everything else runs in the
+//!         pool worker, where a crash stays untagged.
+//! drive:  the C17 driver with more cyclic programs; spec/trace/CalExpandTrace.tla judges with Judge = "C18".
 
-pub fn replay(_ctx: &Ctx, _case: &Value) -> Outcome {
-    panic!("C18: replay not implemented")
+use super::c16::abs;
+use super::c17;
+use crate::runner::{Outcome, Summary, Violation};
+use crate::Ctx;
+use serde_json::{json, Value};
+use std::io::{BufRead, BufReader, Write};
+use std::process::{Command, Stdio};
+use std::time::Duration;
+
+pub const FINDING: &str = "calibration-parameter-growth";
+
+fn contains_var(e: &Value) -> bool {
+    match e["t"].as_str() {
+        Some("var") => true,
+        Some("plus1") | Some("neg") => contains_var(&e["e"]),
+        _ => false,
+    }
 }
 
-pub fn drive(_ctx: &Ctx) -> Summary {
-    panic!("C18: drive not implemented")
+/// The shape of the known finding, as a predicate on the program alone: some gate calibration with a
+/// parameter variable invokes, with a parameter expression that properly contains a variable (so that it
+/// grows with every expansion), a gate that a calibration on a call cycle back to it could match
+/// (same name, parameter count and qubit count).
+pub fn has_growing_cycle(case: &Value) -> bool {
+    let cals: Vec<&Value> = case["gcals"].as_array().map(|a| a.iter().collect()).unwrap_or_default();
+    let n = cals.len();
+    let could_match = |g: &Value, d: &Value| {
+        g["name"] == d["name"]
+            && g["params"].as_array().map(|a| a.len()) == d["params"].as_array().map(|a| a.len())
+            && g["qubits"].as_array().map(|a| a.len()) == d["qubits"].as_array().map(|a| a.len())
+    };
+    // edges[i][j] = Some(growing)
+    let mut edge = vec![vec![None::<bool>; n]; n];
+    for (i, c) in cals.iter().enumerate() {
+        let has_var = c["params"].as_array().map(|a| a.iter().any(|p| p["t"] == "var")).unwrap_or(false);
+        for b in c["body"].as_array().into_iter().flatten() {
+            if b["k"] != "Gate" {
+                continue;
+            }
+            let growing = has_var
+                && b["params"].as_array().map(|a| a.iter().any(|p| p["t"] != "var" && contains_var(p))).unwrap_or(false);
+            for (j, d) in cals.iter().enumerate() {
+                if could_match(b, d) {
+                    edge[i][j] = Some(edge[i][j].unwrap_or(false) || growing);
+                }
+            }
+        }
+    }
+    // reachability
+    let mut reach = vec![vec![false; n]; n];
+    for i in 0..n {
+        for j in 0..n {
+            reach[i][j] = edge[i][j].is_some();
+        }
+    }
+    for k in 0..n {
+        for i in 0..n {
+            for j in 0..n {
+                if reach[i][k] && reach[k][j] {
+                    reach[i][j] = true;
+                }
+            }
+        }
+    }
+    (0..n).any(|i| (0..n).any(|j| edge[i][j] == Some(true) && (i == j || reach[j][i])))
+}
+
+/// expand in this process; (category, max depth reported by the hooks)
+fn expand_here(case: &Value) -> (String, usize) {
+    let (_, res, depth) = c17::run_hooked(case, false);
+    (c17::category(&res).to_string(), depth)
+}
+
+struct Helper {
+    child: std::process::Child,
+    stdin: std::process::ChildStdin,
+    lines: std::sync::mpsc::Receiver<Option<String>>,
+}
+
+thread_local! {
+    /// the helper process of this worker; it lives until a case kills it (then the next case gets a new one),
+    /// so a program that makes it die is alone in it from the point of view of the verdict
+    static HELPER: std::cell::RefCell<Option<Helper>> = const { std::cell::RefCell::new(None) };
+}
+
+fn spawn_helper(ctx: &Ctx) -> Helper {
+    let exe = std::env::current_exe().expect("current_exe");
+    let mut child = Command::new(exe)
+        .args(["worker", "C18.child", "--seed", &ctx.seed.to_string()])
+        .stdin(Stdio::piped())
+        .stdout(Stdio::piped())
+        .stderr(Stdio::null())
+        .spawn()
+        .expect("spawn C18 child");
+    let stdin = child.stdin.take().unwrap();
+    let stdout = child.stdout.take().unwrap();
+    let (tx, rx) = std::sync::mpsc::channel();
+    std::thread::spawn(move || {
+        let mut rd = BufReader::new(stdout);
+        loop {
+            let mut resp = String::new();
+            let n = rd.read_line(&mut resp).unwrap_or(0);
+            if tx.send(if n > 0 { Some(resp) } else { None }).is_err() || n == 0 {
+                break;
+            }
+        }
+    });
+    Helper { child, stdin, lines: rx }
+}
+
+/// expand in a separate process (one case at a time); Err(how it died)
+fn expand_in_child(ctx: &Ctx, case: &Value) -> Result<(String, usize), String> {
+    let mut h = HELPER.with(|c| c.borrow_mut().take()).unwrap_or_else(|| spawn_helper(ctx));
+    let line = serde_json::to_string(case).unwrap();
+    let _ = h.stdin.write_all(line.as_bytes());
+    let _ = h.stdin.write_all(b"\n");
+    let _ = h.stdin.flush();
+    let limit = ctx.arg_u64("child-timeout", 20);
+    match h.lines.recv_timeout(Duration::from_secs(limit)) {
+        Ok(Some(resp)) => {
+            HELPER.with(|c| *c.borrow_mut() = Some(h));
+            let o: Outcome = serde_json::from_str(&resp).map_err(|e| format!("child answer not parseable: {e}"))?;
+            if let Some(v) = o.violations.first() {
+                return Err(format!("{}: {}", v.observable, v.actual));
+            }
+            let cat = o.divergences.first().cloned().unwrap_or_default();
+            let depth = o.counters.get("depth").copied().unwrap_or(0) as usize;
+            Ok((cat, depth))
+        }
+        Ok(None) | Err(std::sync::mpsc::RecvTimeoutError::Disconnected) => {
+            use std::os::unix::process::ExitStatusExt;
+            drop(h.stdin);
+            let st = h.child.wait().ok();
+            Err(match st.and_then(|s| s.signal()) {
+                Some(sig) => format!("signal {sig}"),
+                None => format!("exit {:?}", st.and_then(|s| s.code())),
+            })
+        }
+        Err(std::sync::mpsc::RecvTimeoutError::Timeout) => {
+            let _ = h.child.kill();
+            let _ = h.child.wait();
+            Err("timeout".to_string())
+        }
+    }
+}
+
+pub fn replay(ctx: &Ctx, case: &Value) -> Outcome {
+    let case = match case.get("history") {
+        Some(h) => h[0].clone(),
+        None => case.clone(),
+    };
+    if ctx.mode == "C18.child" {
+        // the answer travels in an Outcome: category in `divergences[0]`, depth in a counter
+        let c2 = case.clone();
+        let h = std::thread::Builder::new().stack_size(2 << 20).spawn(move || expand_here(&c2)).expect("spawn thread");
+        let (cat, depth) = h.join().unwrap_or_else(|_| ("panic".to_string(), 0));
+        let mut o = Outcome::ok(true);
+        if cat == "panic" {
+            o.violate(Violation::new("panic", json!("no panic"), json!("panic during expansion")));
+        }
+        o.divergences.push(cat);
+        o.count_n("depth", depth as u64);
+        return o;
+    }
+    // make sure the program is inside the modelled alphabet before anything runs (tool error otherwise)
+    let _ = abs::program_from_abs(&case);
+    let growing = has_growing_cycle(&case);
+    let cyc = case.get("cycle").and_then(|c| c.as_bool());
+    let mut o = Outcome::ok(growing || cyc.unwrap_or(false));
+    let result = if growing {
+        o.count("own_child");
+        expand_in_child(ctx, &case)
+    } else {
+        Ok(expand_here(&case))
+    };
+    let want = case.get("status").and_then(|s| s.as_str()).unwrap_or("");
+    match result {
+        Err(how) => {
+            // only reachable for the known shape: everything else runs in the pool worker itself
+            o.violate(
+                Violation::new("crash", json!("expanded program or recursive-calibration error"), json!(how))
+                    .note("a calibration re-invokes a gate with a parameter that grows on every expansion: no instruction repeats, the recursion never ends")
+                    .finding(FINDING),
+            );
+        }
+        Ok((cat, depth)) => {
+            match (cat.as_str(), cyc) {
+                ("recursive", Some(false)) => o.violate(
+                    Violation::new("recursive-calibration error without re-entry", json!("done"), json!(cat))
+                        .note("no instruction reachable from the body can reach itself in the expands-to graph"),
+                ),
+                ("done", Some(true)) => o.violate(
+                    Violation::new("re-entry not reported", json!("recursive"), json!(cat))
+                        .note("some instruction reachable from the body expands (indirectly) into itself"),
+                ),
+                ("done", _) | ("recursive", _) => {}
+                (other, _) => o.violate(Violation::new("result category", json!("done | recursive"), json!(other))),
+            }
+            if want == "diverges" {
+                o.diverge(format!("the model expects unbounded recursion, the code returned {cat}"));
+            } else if !want.is_empty() && want != cat && cyc.is_none() {
+                o.diverge(format!("model status {want}, code {cat}"));
+            }
+            if let Some(d) = case.get("depth").and_then(|d| d.as_u64()) {
+                if want != "diverges" && d as usize != depth {
+                    o.diverge(format!("deepest nesting: model {d}, hooks {depth}"));
+                }
+            }
+        }
+    }
+    o
+}
+
+pub fn drive(ctx: &Ctx) -> Summary {
+    c17::drive_traces(ctx, 18, 0.5)
 }
